@@ -265,7 +265,8 @@ def run(ctx):
                        '(iii) positions around 2^31, 2^32, 2^63, 2^64, 10^30 against lengths up to 2^63-1; (iv) seeded random lists and byte mutations. '
                        'Cases are distinct (value, clen) pairs; non-trivial = header honoured.')
     ctx.assumptions += ['field values are NUL/CR/LF-free byte strings (what the header parser hands over); representation length in 0..2^63-1',
-                        'UBSan makes signed overflow observable as the ub flag; absence of a report on explored inputs only',
+                        'UBSan makes signed overflow observable as the ub flag (it reports each source location once per process, so the flag marks the first offending '
+                        'case per site; later cases at the same site are still rejected through their wrong byte set); absence of a report on explored inputs only',
                         'byte sets are compared as normalised interval lists on arbitrary-precision numbers; MC_RangeHdr shows on lengths <= 5 that the '
                         'normal form denotes the explicit byte set',
                         'driver linked like tests/testHttpRange, all compiled from the working tree']
